@@ -17,11 +17,13 @@ package main
 import (
 	"crypto/tls"
 	"fmt"
+	"github.com/fabiolb/fabio/internal/zzverif/simhook"
 	"net"
 	"net/http"
 	"net/netip"
 	"strconv"
 	"strings"
+	"sync"
 	"time"
 
 	"github.com/fabiolb/fabio/config"
@@ -55,6 +57,9 @@ type c08Scenario struct {
 	Cfg     c08Cfg     `json:"config"`
 	Routes  []c08Route `json:"routes"`
 	Clients []h2Client `json:"clients"`
+	// Tasked: the proxy handler goroutines are adopted as tasks, so requests of different
+	// connections interleave at every statement of fabio's header code.
+	Tasked bool `json:"handlers_interleaved_statement_by_statement"`
 }
 
 const c08ListenPort = "9999" // port of h2FabioAddr
@@ -214,6 +219,7 @@ func c08Gen(g *simcore.Tape, thorough bool) *c08Scenario {
 		}
 		sc.Clients = append(sc.Clients, cl)
 	}
+	sc.Tasked = c08Chance(g, 35)
 	return sc
 }
 
@@ -247,6 +253,23 @@ func runC08(r *simcore.Run) {
 	e := h2NewEnv(r, cfg, c08Table(sc))
 	defer e.finish()
 	e.proxy.UUID = func() string { return "00000000-0000-4000-8000-000000000000" }
+	if sc.Tasked {
+		// everything in package proxy except the code that net/http or ReverseProxy call back under their own locks
+		e.d.Sim.Activate("proxy", "-proxy:*responseWriter", "-proxy:newWSHandler", "-proxy:newHTTPProxy", "-proxy:httpProxyErrorHandler")
+		var amu sync.Mutex
+		perConn := map[string]int{}
+		e.wrap = func(h http.Handler) http.Handler {
+			return http.HandlerFunc(func(w http.ResponseWriter, req *http.Request) {
+				amu.Lock()
+				perConn[req.RemoteAddr]++
+				name := fmt.Sprintf("h/%s/%d", req.RemoteAddr, perConn[req.RemoteAddr])
+				amu.Unlock()
+				defer simhook.Adopt(name)()
+				h.ServeHTTP(w, req)
+			})
+		}
+		r.Probe("tasked_handlers")
+	}
 	if sc.Cfg.TLS {
 		e.serve(&tls.Config{Certificates: []tls.Certificate{zzSelfSigned()}})
 		r.Probe("tls_listener")
